@@ -30,7 +30,10 @@ Good(ev, i) ==
     [] ev.fn = "skipws" -> out = [k \in 1..(Len(in) + 1) |-> SkipWhitespace(in, k - 1)]
     [] ev.fn = "skipnws" -> out = [k \in 1..(Len(in) + 1) |-> SkipNonWhitespace(in, k - 1)]
     [] ev.fn = "skipword" -> out = [k \in 1..(Len(in) + 1) |-> SkipWord(in, k - 1)]
-    [] ev.fn = "comments" -> LET r == StripMultilineComments(in) IN out[1] = r.out /\ out[2] = B(r.open)
+    [] ev.fn = "comments" -> LET r == StripMultilineComments(in) IN
+                             /\ out[1] = r.out /\ out[2] = B(r.open)
+                             \* out[3]: the string handed to the throwing form still equals the input; out[4]: it equals the stripped text
+                             /\ (IF r.open THEN out[3] = 1 \/ out[4] = 1 ELSE out[4] = 1)
     [] ev.fn = "printf" -> out = PrintfRle(<<>>, in)
     [] OTHER -> FALSE
 
